@@ -612,17 +612,31 @@ class WithComponentsConstraint(AbstractConstraint):
             if not getattr(component, 'isValue', True):
                 component = None
 
-            if component is None and not isinstance(
-                    constraint, (ComponentPresentConstraint,
-                                 ComponentAbsentConstraint,
-                                 ConstraintsExclusion,
-                                 AbstractConstraintSet)):
+            if component is None and not self._seesAbsence(constraint):
                 # a constraint on the value of a component applies
                 # when the component is present: an absent one has
                 # no value to test
                 continue
 
             constraint(component)
+
+    @classmethod
+    def _seesAbsence(cls, constraint):
+        # PRESENT and ABSENT decide about an absent component, and so
+        # does a set that holds one of them: `(1..5) | ABSENT`,
+        # `ALL EXCEPT ABSENT`.  A set of value constraints is a value
+        # constraint itself: `((1..5))`, `ALL EXCEPT (SIZE (1..2))`
+        if isinstance(constraint, (ComponentPresentConstraint,
+                                   ComponentAbsentConstraint)):
+            return True
+
+        if isinstance(constraint, (ConstraintsExclusion,
+                                   AbstractConstraintSet)):
+            for operand in constraint._values:
+                if cls._seesAbsence(operand):
+                    return True
+
+        return False
 
     def _setValues(self, values):
         AbstractConstraint._setValues(self, values)
